@@ -430,7 +430,7 @@ func init() {
 		func(e *vh.Env, c c11Conc, o *vh.Out) {
 			o.Need("histories_checked", "ops_recorded", "traffic_requests")
 			names := []string{"a", "b", "c", "d"}
-			storm := c.Idx%4 == 3
+			storm := c.Idx%2 == 1
 			if storm {
 				// a larger pool and listings running all the time: a listing overlaps most removals
 				names = []string{"a", "b", "c", "d", "e", "f", "g", "h", "i", "j"}
@@ -521,7 +521,7 @@ func init() {
 				}()
 			}
 			if storm {
-				for l := 0; l < 2; l++ {
+				for l := 0; l < 6; l++ {
 					l := l
 					wg.Add(1)
 					go func() {
